@@ -3,7 +3,7 @@
     (Task.cancel / _must_cancel, Semaphore hand-off, gather's eager path, Event).  Transcribed from
     pool.py and from the interpreter's asyncio sources.  Deterministic: all nondeterminism is in
     the choice of labels.  No proofs in this file. *)
-From TP Require Export PRecords.
+From TP Require Export PBad PRecords.
 
 (** ** Access *)
 Definition get_p (s : state) (t : nat) := nth_error (ptasks s) t.
@@ -339,7 +339,9 @@ Fixpoint apply_loop (rem : nat) (s : state) (m : nat) : state :=
       match rem with
       | O => finish_m s m x None
       | S r =>
-          if m_bad x then apply_loop r (put_m s m (set_m_idx x (S (m_idx x)))) m
+          (* the call of func for invocation [m_idx x] raises synchronously: skipped *)
+          if nth (m_idx x) (m_bad x) false
+          then apply_loop r (put_m s m (set_m_idx x (S (m_idx x)))) m
           else
             let '(s', cont) := try_start s m x in
             if cont then apply_loop r s' m else s'
@@ -798,7 +800,7 @@ Definition do_op (s : state) (o : op) : state :=
           else
             let s := know s g in
             let s := set_groups s (gensure g (groups s)) in
-            let x := mk_mtask (MMap stars) g 0 false els default_w ecb ccb MNotStarted 0 None
+            let x := mk_mtask (MMap stars) g 0 [] els default_w ecb ccb MNotStarted 0 None
                               false None nc false 0 false nc in
             set_res (new_meta s x) (RName g)
       end
